@@ -703,6 +703,35 @@ def fam_inv(tier: str, rng: random.Random) -> Iterator[dict]:
                 yield class_prog(inv_on, members[:5], [(m1, 1), (m2, 2), (1, 1)], ninst=2, tag="inv-two")
 
 
+def with_late_members(progs: Iterable[dict]) -> Iterator[dict]:
+    """C03: the same classes with two or more invariants whose plain public methods are added by a class decorator that
+    sits between the invariant decorators: they are public methods of the class like any other."""
+    for p in progs:
+        if len(p["cls"]) == 1 and len(p["cls"][0]["inv"]) >= 2 and not p["cls"][0].get("base"):
+            if any(f["kind"] == "method" and not f["pre"] and not f["post"] for f in p["fn"]):
+                q = json_copy(p)
+                q["late_members"] = True
+                q["tag"] = p["tag"] + "-late-members"
+                yield q
+
+
+def fam_ctor_alias(tier: str, rng: random.Random) -> Iterator[dict]:
+    """C03: the constructor bound under a second, public name (``reset = __init__``): called through that name it is a
+    public method like any other - invariants before (the object may have been broken meanwhile) and after."""
+    members = [("method", 0), ("protected", 2), ("method", 2)]
+    for inv_on in INV_COMBOS:
+        for dbc in (True, False):
+            for init_setst in (1, 2):
+                for ops in ([], [(2, 1)], [(3, 1)], [(1, 1)], [(2, 1), (1, 1)]):
+                    p = class_prog(inv_on, members, ops, dbc=dbc, init_setst=init_setst, tag="ctor-alias")
+                    oncall = p["cls"][0]["oncall"]
+                    alias = json_copy(p["fn"][0])
+                    alias.update({"kind": "method", "chain": ["inv"] if oncall else [], "alias_of": 1})
+                    p["fn"].append(alias)
+                    p["drv"][0] += [Op("call", len(p["fn"]), 1, 1), Op("call", 2, 1, 1)]
+                    yield p
+
+
 def fam_inv_sub(tier: str, rng: random.Random) -> Iterator[dict]:
     """C03: a subclass whose constructor calls the base constructor; members added by the subclass.
 
